@@ -18,7 +18,7 @@ LEVEL = "exploration"
 RULE = (
     "(i) EXHAUSTIVE histories over the 9-letter alphabet {fun, grad, fun_and_grad} x {P0, P1, P2} of length <= L for each gradient mode (quick: L=4 for callable/2-point/3-point/cs; thorough: L=6 callable "
     "and 2-point, L=5 3-point and cs), the wrapper built by prepare_scalar_function; (ii) RuleBasedStateMachine histories of up to 30 requests with extra operations: set the scaling factor, "
-    "mutate the previously passed array in place and pass it again, pass a new array with the same values, overwrite the gradient array that was returned (also in the exhaustive part, as a second variant of every history), points containing -0.0/0.0. Oracle: every answer equals a fresh evaluation by the harness "
+    "mutate the previously passed array in place and pass it again, pass a new array with the same values, overwrite the gradient array that was returned (also in the exhaustive part, as a second variant of every history), points containing -0.0/0.0; wrappers built from a float32 / float16 / integer start point (short histories exhaustively, and in the machine). Oracle: every answer equals a fresh evaluation by the harness "
     "times the scaling factor current at the time of the answer; counters equal the call log; no objective call at the point of the immediately preceding request when that already produced f. "
     "non-trivial = the history revisits a point after visiting another, or mutates a passed array, or changes the scaling factor between two requests at the same point; distinct = distinct history"
 )
@@ -58,7 +58,7 @@ def fd_ref(p, mode, eps, rel):
 class Wrapper:
     """The wrapper under test plus the harness's call log."""
 
-    def __init__(self, mode, eps=1e-8, rel=None):
+    def __init__(self, mode, eps=1e-8, rel=None, x0_dtype="float64"):
         from lbfgsb.scalar_function import prepare_scalar_function
 
         self.mode, self.eps, self.rel = mode, eps, rel
@@ -72,7 +72,10 @@ class Wrapper:
             self.glog.append(np.array(x, dtype=float, copy=True))
             return g_pure(x)
 
-        self.sf = prepare_scalar_function(fun, POINTS[0].copy(), jac=(jac if mode == "callable" else mode), epsilon=eps, finite_diff_rel_step=rel)
+        # the wrapper may be built from a start point of any real dtype (float32, integers, ...): requests
+        # made later at float64 points must still be answered at exactly those points
+        x_start = (np.round(POINTS[0]) if "int" in x0_dtype else POINTS[0]).astype(x0_dtype)
+        self.sf = prepare_scalar_function(fun, x_start, jac=(jac if mode == "callable" else mode), epsilon=eps, finite_diff_rel_step=rel)
         self.scale = 1.0
         self.n_grad_requests = 0
         self.grad_runs = 0
@@ -147,7 +150,7 @@ class Wrapper:
 
 def run_history(item, stats=None):
     mode, hist = item["mode"], item["hist"]
-    w = Wrapper(None if mode == "None" else mode, item.get("eps", 1e-8), item.get("rel"))
+    w = Wrapper(None if mode == "None" else mode, item.get("eps", 1e-8), item.get("rel"), item.get("x0_dtype", "float64"))
     try:
         for k, (op, pi) in enumerate(hist):
             _, og = w.request(OPS[op], POINTS[pi].copy(), tag=f"[{mode}] step {k}: ")
@@ -159,7 +162,7 @@ def run_history(item, stats=None):
         v.spec = item
         raise
     if stats is not None:
-        stats.case(item, w.revisit or bool(item.get("mutate_returned")), [f"mode={mode}", f"len={len(hist)}", f"mutate_returned={bool(item.get('mutate_returned'))}"],
+        stats.case(item, w.revisit or bool(item.get("mutate_returned")) or "x0_dtype" in item, [f"mode={mode}", f"len={len(hist)}", f"mutate_returned={bool(item.get('mutate_returned'))}", f"x0_dtype={item.get('x0_dtype', 'float64')}"],
                    sample={"mode": mode, "history": [f"{OPS[o]}(P{p})" for o, p in hist]} if len(hist) >= 3 else None)
 
 
@@ -171,11 +174,14 @@ def enum_items(modes_len):
                 yield {"mode": mode, "hist": [list(h) for h in hist]}
                 if ln <= L - 1 and any(o != 0 for o, _ in hist):
                     yield {"mode": mode, "hist": [list(h) for h in hist], "mutate_returned": True}
+                if ln <= min(L - 1, 3):
+                    for dt in ("float32", "int64", "float16"):
+                        yield {"mode": mode, "hist": [list(h) for h in hist], "x0_dtype": dt}
 
 
 # ---------------------------------------------------------------- stateful part
 def apply_ops(spec, stats=None):
-    w = Wrapper(None if spec["mode"] == "None" else spec["mode"], spec.get("eps", 1e-8), spec.get("rel"))
+    w = Wrapper(None if spec["mode"] == "None" else spec["mode"], spec.get("eps", 1e-8), spec.get("rel"), spec.get("x0_dtype", "float64"))
     last_arr = None
     last_out = None
     mutated = False
@@ -207,9 +213,10 @@ def make_machine(state, stats):
             self.spec = None
             self.dead = False
 
-        @initialize(mode=st.sampled_from(["callable", "callable", "None", "2-point", "3-point", "cs"]), rel=st.sampled_from([None, 1e-7]), eps=st.sampled_from([1e-8, 1e-6]))
-        def init(self, mode, rel, eps):
-            self.spec = {"mode": mode, "rel": rel, "eps": eps, "ops": []}
+        @initialize(mode=st.sampled_from(["callable", "callable", "None", "2-point", "3-point", "cs"]), rel=st.sampled_from([None, 1e-7]), eps=st.sampled_from([1e-8, 1e-6]),
+                    dt=st.sampled_from(["float64", "float64", "float32", "int64", "float16"]))
+        def init(self, mode, rel, eps, dt):
+            self.spec = {"mode": mode, "rel": rel, "eps": eps, "x0_dtype": dt, "ops": []}
 
         def _do(self, op):
             if self.dead or not state["budget_left"]():
